@@ -149,6 +149,7 @@ type SpecDB struct {
 	Dyn      map[string]*FnContract
 	Lemmas   []*Clause
 	UFs      map[string]*UFDecl
+	Tracked  map[string]bool
 	GlobalInvs map[string][]*Clause
 	AutoTags []AutoTag
 	Mono     map[string][]*Clause // lock class -> two-state clauses checked at unlock
@@ -172,7 +173,7 @@ type AutoTag struct {
 }
 
 func newSpecDB() *SpecDB {
-	return &SpecDB{GlobalInvs: map[string][]*Clause{}, UFs: map[string]*UFDecl{}, Fns: map[string]*FnContract{}, Preds: map[string]*PredDef{}, Ghosts: map[string]*GhostDecl{},
+	return &SpecDB{GlobalInvs: map[string][]*Clause{}, UFs: map[string]*UFDecl{}, Tracked: map[string]bool{}, Fns: map[string]*FnContract{}, Preds: map[string]*PredDef{}, Ghosts: map[string]*GhostDecl{},
 		LockInvs: map[string][]*LockInv{}, Protects: map[string]*Protect{}, TypeInvs: map[string][]*Clause{},
 		LockLevel: map[string]int{}, Guards: map[string][]string{}, Options: map[string]map[string]string{},
 		Imports: map[string]map[string]string{}, Dyn: map[string]*FnContract{}, Mono: map[string][]*Clause{}}
@@ -194,7 +195,7 @@ func parseLabel(s string) (label string, tags []string, rest string) {
 	return
 }
 
-var directiveKW = map[string]bool{"globalinv": true, "uf": true, "autotag": true, "option": true, "import": true, "ghost": true, "pred": true, "inv": true, "lockinv": true, "protect": true,
+var directiveKW = map[string]bool{"globalinv": true, "uf": true, "tracked": true, "autotag": true, "option": true, "import": true, "ghost": true, "pred": true, "inv": true, "lockinv": true, "protect": true,
 	"typeinv": true, "lockorder": true, "guards": true, "func": true, "dyn": true, "lemma": true, "mono": true, "spec": true}
 var clauseKW = map[string]bool{"requires": true, "ensures": true, "loop": true, "locks": true, "modifies": true, "inline": true,
 	"trusted": true, "entry": true, "optional": true, "blocking": true, "pure": true, "callsite": true, "captures": true,
@@ -436,6 +437,10 @@ func (db *SpecDB) loadSpecFile(path string, pkgPath string, goFile bool) {
 			}
 			u.Res = te
 			db.UFs[u.Name] = u
+		case "tracked":
+			for _, t := range strings.Fields(it.text) {
+				db.Tracked[pkgPath+"."+t] = true
+			}
 		case "globalinv":
 			db.GlobalInvs[pkgPath] = append(db.GlobalInvs[pkgPath], mkClause(it.text, it.n))
 		case "autotag":
@@ -791,6 +796,29 @@ func (p *sparser) parseExpr() (*SExpr, error) {
 func (p *sparser) parseQuant() (*SExpr, error) {
 	q := p.next().s
 	e := &SExpr{Op: q}
+	// element form: forall x in s :: body   |   forall i, x in s :: body   (slices and maps)
+	if p.peek().k == tIdent && (p.peekN(1).s == "in" || (p.peekN(1).s == "," && p.peekN(2).k == tIdent && p.peekN(3).s == "in")) {
+		e.Op = q + "in"
+		e.Binders = append(e.Binders, Binder{Name: p.next().s})
+		if p.peek().s == "," {
+			p.next()
+			e.Binders = append(e.Binders, Binder{Name: p.next().s})
+		}
+		p.next() // in
+		coll, err := p.parseAdd()
+		if err != nil {
+			return nil, err
+		}
+		if err := p.expect("::"); err != nil {
+			return nil, err
+		}
+		body, err := p.parseExpr()
+		if err != nil {
+			return nil, err
+		}
+		e.Args = []*SExpr{coll, body}
+		return e, nil
+	}
 	for {
 		n := p.next()
 		if n.k != tIdent {
